@@ -31,4 +31,23 @@ rejected with resource-exhausted — also when it is the first message of a stre
 def holdsSharp (limit size : Nat) (ok exhausted : Bool) (want got echo : Nat) : Bool :=
   if accepts limit size then ok && got == want && echo == size else exhausted && !ok
 
+/-- The property on one request message of a suite that was ACCEPTED (loaded without error),
+whatever the suite's attributes are: a message with a directive `off` has exactly
+`limit + off` bytes and nothing but its padding changed; a message without one is what the
+file said. -/
+def msgPadded (limit : Nat) (off : Option Int) (sizeAfter : Nat) (othersEqual unchanged : Bool) : Bool :=
+  match off with
+  | some off => holdsExpand limit off true false sizeAfter othersEqual
+  | none => unchanged
+
+/-- … on the model's output: `L` is the padding length after loading -/
+def directivePadded (limit : Nat) (d : Directive) (L : Nat) : Bool :=
+  msgPadded limit d.off (size d.r L) true (L == d.l0)
+
+/-- an accepted suite: every message of every case -/
+def suitePadded (limit : Nat) (cases : List SuiteCase) (out : List (List Nat)) : Bool :=
+  cases.length == out.length &&
+  (cases.zip out).all (fun p => p.1.msgs.length == p.2.length &&
+    (p.1.msgs.zip p.2).all (fun q => directivePadded limit q.1 q.2))
+
 end ConfModel.Padding
